@@ -199,6 +199,12 @@ func randOps(rnd *rand.Rand, cat *Catalog, steps int, profile string, honest boo
 		switch {
 		case k < 12: // push blob
 			c := pick(blobs)
+			if rnd.Intn(12) == 0 {
+				// the bytes of a manifest pushed as a blob
+				if m := pick(mans); len(cat.byID[m].Data) < 65536 {
+					c = m
+				}
+			}
 			op := Op{Op: "PushBlob", R: repo(), C: c, DD: c, DS: len(cat.byID[c].Data)}
 			switch rnd.Intn(10) {
 			case 0:
